@@ -62,8 +62,9 @@ let trace_of_string (s : string) : ev list option =
 let sched_case nq progs sched impl =
   let progs = parse_progs progs and sched = parse_sched sched in
   let tr = exec nq progs sched (nat_of_int fuel) in
-  let om = c30_ok progs tr in
-  let oi = (match trace_of_string impl with Some ti -> c30_ok progs ti | None -> false) in
+  let all = all_progs progs in
+  let om = c30_ok all tr && c30_final_ok all tr in
+  let oi = (match trace_of_string impl with Some ti -> c30_ok all ti && c30_final_ok all ti | None -> false) in
   (string_of_trace tr, oi, om)
 
 let slot_ops (s : string) : op list =
